@@ -19,6 +19,14 @@ use super::{
     ForeignKeysPaths, StringIndexer,
 };
 
+/// Where an explicit default (`null`) takes its value from:
+/// the `inherits` parent of the locale if it has one, else the default locale.
+#[derive(Debug, Clone, Copy)]
+pub struct DefaultLocales<'a> {
+    pub default: &'a Key,
+    pub inherits: &'a BTreeMap<Key, Key>,
+}
+
 #[derive(Debug, Clone, PartialEq)]
 pub enum ParsedValue {
     Default,
@@ -451,7 +459,7 @@ impl ParsedValue {
         foreign_key: &mut ForeignKey,
         values: &LocalesOrNamespaces,
         top_locale: &Key,
-        default_locale: &Key,
+        default_locale: DefaultLocales,
         key_path: &KeyPath,
     ) -> Result<()> {
         let ForeignKey::NotSet(foreign_key_path, args) = &*foreign_key else {
@@ -468,7 +476,7 @@ impl ParsedValue {
             .into());
         };
 
-        // locale the value is taken from: the current one, or the default one for an explicit default.
+        // locale the value is taken from: the current one, or for an explicit default the one the key itself takes its value from.
         let mut value_locale = top_locale;
         let mut value = value;
 
@@ -477,24 +485,39 @@ impl ParsedValue {
             // but we still need to do it here to avoid infinite loop
             // this case happen if a foreign key point to an explicit default in the default locale
             // pretty niche, but would cause a rustc stack overflow if not done.
-            if top_locale == default_locale {
+            if top_locale == default_locale.default {
                 return Err(Error::ExplicitDefaultInDefault(key_path.to_owned()).into());
             }
-            value_locale = default_locale;
-            value = match values.get_value_at(default_locale, foreign_key_path) {
-                Some(ParsedValue::Default) => {
-                    return Err(Error::ExplicitDefaultInDefault(key_path.to_owned()).into())
-                }
-                Some(value) => value,
-                None => {
-                    return Err(Error::MissingForeignKey {
-                        foreign_key: foreign_key_path.to_owned(),
-                        locale: default_locale.clone(),
-                        key_path: key_path.to_owned(),
+            // follow the `inherits` chain like the key itself does (see `DefaultedLocales::compute`),
+            // a locale seen twice or without parent falls back to the default locale.
+            let mut visited = vec![top_locale];
+            loop {
+                value_locale = default_locale
+                    .inherits
+                    .get(value_locale)
+                    .filter(|parent| !visited.contains(parent))
+                    .unwrap_or(default_locale.default);
+                visited.push(value_locale);
+                let is_default_locale = value_locale == default_locale.default;
+                match values.get_value_at(value_locale, foreign_key_path) {
+                    Some(ParsedValue::Default) | None if !is_default_locale => continue,
+                    Some(ParsedValue::Default) => {
+                        return Err(Error::ExplicitDefaultInDefault(key_path.to_owned()).into())
                     }
-                    .into())
+                    Some(found) => {
+                        value = found;
+                        break;
+                    }
+                    None => {
+                        return Err(Error::MissingForeignKey {
+                            foreign_key: foreign_key_path.to_owned(),
+                            locale: value_locale.clone(),
+                            key_path: key_path.to_owned(),
+                        }
+                        .into())
+                    }
                 }
-            };
+            }
         }
 
         // possibility that the foreign key must be resolved too
@@ -516,7 +539,7 @@ impl ParsedValue {
         &self,
         values: &LocalesOrNamespaces,
         top_locale: &Key,
-        default_locale: &Key,
+        default_locale: DefaultLocales,
         path: &KeyPath,
     ) -> Result<()> {
         match self {
